@@ -48,3 +48,59 @@ prop("C13",
               "objects and paths (that is C04/C10)"])
 add("C13", lambda tier: [Job("h_options", model=False, shim=False, unwind=4,
                              bounds={"ints": "full 32-bit", "streams": 3})])
+
+# ------------------------------------------------------------------ start harness (shared)
+
+
+def start_jobs(tier, side, F=None):
+    jobs = []
+    F = (1 if tier == "quick" else 2) if F is None else F
+    for it in (1, 2, 3, 5, 6, 7):
+        jobs.append(Job("h_start", variant="side%d-in%d-F%d" % (side, it, F),
+                        defines={"VP_SIDE": side, "VP_IN_TYPE": it, "VP_F": F, "VP_EINTR": 1,
+                                 "VP_MAXEV": 1, "VP_EXTRA": 1},
+                        unwind=20, params={"nfd": 18, "retry": F + 2, "input_max": 3},
+                        cbmc_flags=["--slice-formula"], timeout=1800,
+                        bounds={"faults": F, "descriptor_table": 18, "stdin_type": it}))
+    return jobs
+
+
+prop("C04", units=["reproc/src/reproc.c", "reproc/src/process.posix.c", "reproc/src/redirect.c",
+                   "reproc/src/redirect.posix.c", "reproc/src/pipe.posix.c", "reproc/src/handle.posix.c",
+                   "reproc/src/options.c", "reproc/src/strv.c"],
+     assumptions=COMMON_ASSUME, outside=[])
+add("C04", lambda tier: start_jobs(tier, 0) + start_jobs(tier, 1))
+
+START_UNITS = ["reproc/src/reproc.c (reproc_new, reproc_start, setup_input)", "reproc/src/process.posix.c",
+               "reproc/src/redirect.c", "reproc/src/redirect.posix.c", "reproc/src/pipe.posix.c",
+               "reproc/src/handle.posix.c", "reproc/src/options.c", "reproc/src/strv.c",
+               "reproc/src/init.posix.c"]
+START_ASSUME = COMMON_ASSUME + [
+    "POSIX model /verif/model/posix_model.c (contracts listed at the top of that file): lowest-free "
+    "descriptor allocation, dup2/FD_CLOEXEC/O_NONBLOCK semantics, close releases even on error, "
+    "fcntl(F_GETFD) on an open descriptor cannot fail, read on a pipe and waitpid fail only with EINTR",
+    "fork is explored one side at a time: the parent side ASSUMES the child's contract G (reports a "
+    "positive errno on its error pipe and exits, or execs holding exactly its four descriptors); the "
+    "child side PROVES G on the same tree in the same run (DESIGN.md 2.3)",
+    "at most F injected faults per path (quick F=1, thorough F=2), any errno 1..133; EINTR injectable "
+    "at read/waitpid/open/dup2/close/poll/write",
+    "descriptor table scaled to 18 slots = soft RLIMIT_NOFILE; MAX_FD_LIMIT (2^20) is exercised through "
+    "a symbolic limit in {18, 2^30, RLIM_INFINITY}",
+    "now() is replaced by a read of the virtual clock (clock.posix.c itself is decided by H_clock)",
+    "only option records that parse_options accepts (C13 decides acceptance); strings are short constants; "
+    "caller's descriptors in two layouts (below / above the library's), 1 unrelated descriptor at the "
+    "highest permitted number",
+]
+START_OUTSIDE = ["kernel behaviour (it is the model)", "more than 2 faults per path", "descriptors >= 18",
+                 "SIGKILL of the child between fork and exec", "real thread schedules"]
+
+for _pid in ("C05", "C06", "C10", "C11", "C12"):
+    prop(_pid, units=START_UNITS, assumptions=START_ASSUME, outside=START_OUTSIDE)
+META["C04"]["units"] = START_UNITS
+META["C04"]["assumptions"] = START_ASSUME
+META["C04"]["outside"] = START_OUTSIDE
+add("C05", lambda tier: start_jobs(tier, 0))
+add("C06", lambda tier: start_jobs(tier, 0))
+add("C10", lambda tier: start_jobs(tier, 0) + start_jobs(tier, 1))
+add("C11", lambda tier: start_jobs(tier, 1))
+add("C12", lambda tier: start_jobs(tier, 0) + start_jobs(tier, 1))
